@@ -90,7 +90,11 @@ PROFILE_MEMBER = {"min_nodes": 2, "max_nodes": 4, "min_ops": 20, "max_ops": 60, 
 
 # ---------------------------------------------------------------- trace -> Coq
 def cs(hexs):
-    return '(h "%s")' % hexs
+    # printable strings are emitted verbatim (cheaper to parse), everything else through unhex
+    b = bytes.fromhex(hexs)
+    if all(32 <= c < 127 and c != 34 for c in b):
+        return '"%s"' % b.decode("ascii")
+    return '(unhex "%s")' % hexs
 
 
 def c_entry(e):
@@ -121,8 +125,7 @@ def c_event(ev):
 
 def c_view(v):
     exp = "None" if v["expiry"] == 0 else "(Some %d%%Z)" % v["expiry"]
-    return ("{| ov_n := %d; ov_id := %s; ov_present := %s; ov_addr := %s; ov_ver := %d; ov_left := %s; "
-            "ov_unreach := %s; ov_expiry := %s; ov_ents := %s |}") % (
+    return "(Build_oview %d %s %s %s %d %s %s %s %s)" % (
         v["n"], cs(v["id"]), coq_bool(v["present"]), cs(v.get("addr", "")), v.get("ver", 0),
         coq_bool(v.get("left", False)), coq_bool(v.get("unreach", False)), exp,
         coq_list([c_entry(e) for e in v["entries"]]))
@@ -140,7 +143,7 @@ def c_obs(ob, reports=None):
     rep = "None"
     if reports is not None:
         rep = "(Some %s)" % coq_list([cs(r) for r in reports])
-    return ("{| o_views := %s; o_sums := %s; o_events := %s; o_sent := %s; o_err := %s; o_reports := %s |}" % (
+    return ("(Build_obs %s %s %s %s %s %s)" % (
         coq_list([c_view(v) for v in ob["views"]]), coq_list([c_sum(s) for s in ob["summary"]]),
         coq_list([c_event(e) for e in ob["events"]]),
         coq_list(["(%s, %s)" % (cs(H(p["dst"])), cs(p["bytes"])) for p in ob["sent"]]),
@@ -196,7 +199,7 @@ def case_to_coq(case, out):
         if k in ("deliver", "drop") and not (ob.get("skipped") and inflight == 0):
             inflight -= 1
         inflight += len(ob["sent"])
-    return "{| gc_nodes := %s; gc_steps := %s |}" % (
+    return "(Build_gcase %s %s)" % (
         coq_list(["(%s, %s)" % (cs(n["id"]), cs(n["addr"])) for n in case["nodes"]]), coq_list(steps))
 
 
@@ -229,12 +232,14 @@ def parse_mismatches(out):
 CODE_NAMES = {1: "illegal-oracle", 2: "view", 3: "summary", 4: "events", 5: "packet-bytes", 6: "error-flag", 7: "detector-reports"}
 
 
-def correspondence(pid, wd, cases, outs, shard=150, tag="w"):
+def correspondence(pid, wd, cases, outs, shard=None, tag="w"):
     """evaluate the model on the observed histories inside Coq. returns list of disagreements
     [{case, step, codes}] ; raises on evaluation failure"""
     dis = []
     import concurrent.futures as cf
     jobs = []
+    if shard is None:
+        shard = max(8, (len(cases) + 15) // 16)
     for si in range(0, len(cases), shard):
         jobs.append((si, cases[si:si + shard], outs[si:si + shard]))
 
@@ -246,7 +251,7 @@ def correspondence(pid, wd, cases, outs, shard=150, tag="w"):
             raise RuntimeError("coq evaluation of cases failed:\n" + out[-3000:])
         return [(si + c, s, codes) for (c, s, codes) in mm]
 
-    with cf.ThreadPoolExecutor(max_workers=8) as ex:
+    with cf.ThreadPoolExecutor(max_workers=16) as ex:
         for r in ex.map(work, jobs):
             for (c, s, codes) in r:
                 dis.append({"case": c, "step": s, "codes": codes, "names": [CODE_NAMES.get(x, str(x)) for x in codes]})
